@@ -48,12 +48,12 @@ func (asv *AKSetsValidator) Validate(pnode *ptree.PermNode) (bool, error) {
 // validateAkSet validate single AkSet
 func (asv *AKSetsValidator) validateAkSet(set *pb.AkSet, signedAks []*ptree.PermNode) bool {
 	// empty set or empty signature means validate failed
-	if len(set.Aks) == 0 || len(signedAks) == 0 {
+	if len(set.GetAks()) == 0 || len(signedAks) == 0 {
 		return false
 	}
 
 	isValid := true
-	for _, ak := range set.Aks {
+	for _, ak := range set.GetAks() {
 		node := asv.findAkInNodeList(ak, signedAks)
 		if node == nil || node.Status != ptree.Success {
 			// found one ak without valid signature, this set validate failed
